@@ -50,3 +50,14 @@ pub open spec fn lex_lt(a: Seq<u8>, b: Seq<u8>) -> bool
 }
 
 pub open spec fn lex_le(a: Seq<u8>, b: Seq<u8>) -> bool { a == b || lex_lt(a, b) }
+
+// N16: `db.full_iterator(IteratorMode::End).take(1).last()` -- the entry with the greatest key.
+// Iterator-level I/O errors are not modelled (assumption: a RocksDB iterator does not fail mid-scan).
+#[verifier::external_body]
+pub fn db_last_entry(db: &DB) -> (r: Option<Result<(Vec<u8>, Vec<u8>), VErr>>)
+    ensures
+        db@.dom().len() == 0 ==> r is None,
+        db@.dom().len() > 0 ==> r is Some && r->0 is Ok
+            && db@.contains_key((r->0->Ok_0).0@) && db@[(r->0->Ok_0).0@] == (r->0->Ok_0).1@
+            && forall|kb: Seq<u8>| db@.contains_key(kb) ==> lex_le(kb, (r->0->Ok_0).0@),
+{ unimplemented!() }
